@@ -188,8 +188,8 @@ type Stream struct {
 // decoding the input in parallel with the driver (the driver consumes exactly
 // one rune per consume event, and on an error skips to the character after the
 // next newline).
-func ImplStream(car *ctypes.Carrier, b *Built, input []byte) *Stream {
-	st := &Stream{}
+func ImplStream(car *ctypes.Carrier, b *Built, input []byte) (st *Stream) {
+	st = &Stream{}
 	fset := gotoken.NewFileSet()
 	file := fset.AddFile("in", -1, len(input))
 	base := int(file.Pos(0))
